@@ -44,29 +44,55 @@ def cases(draw, tier):
         msl = draw(st.integers(ms, ms + 3))
         nmax = 22 if tier == "quick" else 30
         n = D.weighted(draw, [(7, st.integers(2 * msl, max(2 * msl, nmax))), (2, st.integers(2 * msl, 2 * msl + 3)), (1, st.just(2 * msl))])
+        if sc == "function" and draw(st.integers(0, 11)) == 0:
+            # long series: candidates with tens of thousands of inner intervals (cheap for a function score)
+            msl = draw(st.integers(1, 4))
+            n = draw(st.integers(150, 240))
         if sc == "function":
-            sc = {"cls": "FunctionLocalAnomalyScore", "key": draw(st.integers(0, 1000)), "modulus": draw(st.sampled_from([2, 3, 5, 7])),
+            sc = {"cls": "FunctionLocalAnomalyScore", "key": draw(st.integers(0, 1000)), "modulus": draw(st.sampled_from([2, 3, 5, 7, 101, 1009])),
                   "offset": draw(st.sampled_from([0, 0, 1, 2])), "ncols": draw(st.sampled_from([1, 1, 2, 3]))}
             X = [[0.0] * p for _ in range(n)]
         else:
             X, _ = draw(D.structured_matrix(n, p, boundary_positions=(1, msl, n - msl, n - 2), max_shifts=1))
+            unit = draw(st.sampled_from([1.0, 1.0, 1.0, 1e-3, 1e-6, 1e3]))
+            if unit != 1.0:
+                X = [[v * unit for v in row] for row in X]
     mil = D.weighted(draw, [(6, st.integers(2 * msl, 2 * msl + 14)), (2, st.just(2 * msl)), (1, st.just(1000))])
+    long_series = n >= 150
     scale = draw(st.sampled_from([0.5, 0.0, 0.2, 1.0, 2.0, None]))
     if isinstance(sc, dict) and sc["cls"].startswith(("Table", "Function")) and scale is not None:
         scale = draw(st.sampled_from([0.1, 0.0, 0.05, 0.2, 0.3]))
+    growth = draw(K.growth_strategy)
+    if long_series:
+        # few, long candidates (the pure-Python candidate enumeration is quadratic in the candidate length)
+        mil, growth = 1000, draw(st.sampled_from([2.0, 1.5]))
     return {"params": {"anomaly_score": sc, "threshold_scale": scale, "level": draw(K.level_strategy),
                        "min_segment_length": msl, "max_interval_length": mil,
-                       "growth_factor": draw(K.growth_strategy)},
-            "X": X, "scale2": draw(st.floats(1.0, 3.0))}
+                       "growth_factor": growth},
+            "X": X, "scale2": draw(st.floats(1.0, 3.0)),
+            "n_train": None if long_series else draw(st.sampled_from([None, None, "shorter", "longer"]))}
 
 
 def inner_intervals(s, e, msl):
+    """All (a, b) with s < a, b < e, b - a >= msl and (a - s) + (e - b) >= msl, in lexicographic order."""
     out = []
     for a in range(s + 1, e):
-        for b in range(a + msl, e):
-            if (a - s) + (e - b) >= msl:
-                out.append((a, b))
+        hi = min(e - 1, e - msl + (a - s))
+        out.extend((a, b) for b in range(a + msl, hi + 1))
     return out
+
+
+def inner_interval_arrays(s, e, msl):
+    """Vectorised form of inner_intervals: arrays (A, B) in the same lexicographic order."""
+    a = np.arange(s + 1, e)
+    lo = a + msl
+    hi = np.minimum(e - 1, e - msl + (a - s))
+    cnt = np.maximum(hi - lo + 1, 0)
+    if cnt.sum() == 0:
+        return np.zeros(0, dtype=np.int64), np.zeros(0, dtype=np.int64)
+    A = np.repeat(a, cnt)
+    offs = np.arange(cnt.sum()) - np.repeat(np.cumsum(cnt) - cnt, cnt)
+    return A.astype(np.int64), (np.repeat(lo, cnt) + offs).astype(np.int64)
 
 
 def check(case):
@@ -74,8 +100,10 @@ def check(case):
     X = np.asarray(case["X"], dtype=float)
     n, p = X.shape
     msl, mil = params["min_segment_length"], params["max_interval_length"]
+    from checks.c07 import training_data
+    Xtrain = training_data(X, case.get("n_train") if n <= 16 else (None if case.get("n_train") == "longer" else case.get("n_train")), 2 * msl, params["anomaly_score"])
     with sut("CircularBinarySegmentation.fit/predict"):
-        det = K.build(K.detector_spec("CircularBinarySegmentation", params)).fit(X)
+        det = K.build(K.detector_spec("CircularBinarySegmentation", params)).fit(Xtrain)
         y = det.predict(X)
         table = det.scores
         thr = float(det.threshold_)
@@ -102,27 +130,29 @@ def check(case):
     ties = False
     for i in range(len(table)):
         s, e = int(starts[i]), int(ends[i])
-        inner = inner_intervals(s, e, msl)
-        if not inner:
+        A, B = inner_interval_arrays(s, e, msl)
+        if A.size == 0:
             if sc[i] != 0:
                 raise Violation("candidate without any admissible inner interval has a non-zero score",
                                 interval=[s, e], score=float(sc[i]))
             continue
         has_inner[i] = True
-        cuts = np.array([(s, a, b, e) for a, b in inner])
+        cuts = np.column_stack((np.full(A.size, s), A, B, np.full(A.size, e)))
         vals = np.asarray(oracle.evaluate(cuts)).sum(axis=1)
         top = float(vals.max())
-        tol = 1e-9 * (1 + abs(top))
+        tol = 1e-9 * (abs(top) + K.score_magnitude(params["anomaly_score"], X, e - s, default="L2Cost"))
         if abs(sc[i] - top) > tol:
             raise Violation("candidate score is not the maximum of the column-summed local anomaly score over inner intervals",
                             interval=[s, e], reported=float(sc[i]), maximum=top)
-        if (int(a0[i]), int(b0[i])) not in set(inner):
+        a_, b_ = int(a0[i]), int(b0[i])
+        admissible = s < a_ and b_ < e and b_ - a_ >= msl and (a_ - s) + (e - b_) >= msl
+        if not admissible:
             raise Violation("reported inner interval is not admissible (strictly inside, length >= msl, surroundings >= msl)",
-                            interval=[s, e], inner=[int(a0[i]), int(b0[i])], msl=msl)
-        v = vals[inner.index((int(a0[i]), int(b0[i])))]
+                            interval=[s, e], inner=[a_, b_], msl=msl)
+        v = float(vals[np.flatnonzero((A == a_) & (B == b_))[0]])
         if v < top - tol:
             raise Violation("reported inner interval does not attain the candidate's maximum", interval=[s, e],
-                            inner=[int(a0[i]), int(b0[i])], value=float(v), maximum=top)
+                            inner=[a_, b_], value=v, maximum=top)
         if np.sum(vals >= top - tol) > 1:
             ties = True
     classes = []
@@ -147,13 +177,17 @@ def check(case):
     if params["threshold_scale"] is not None and params["threshold_scale"] > 0:
         p2 = dict(params, threshold_scale=params["threshold_scale"] * case["scale2"])
         with sut("CircularBinarySegmentation (larger threshold)"):
-            y2 = K.build(K.detector_spec("CircularBinarySegmentation", p2)).fit(X).predict(X)
+            y2 = K.build(K.detector_spec("CircularBinarySegmentation", p2)).fit(Xtrain).predict(X)
         _, e2 = K.sparse_events(y2)
         if not set(e2) <= set(events):
             raise Violation("raising the threshold added an anomaly", lower=[list(e) for e in events],
                             higher=[list(e) for e in e2])
         if len(e2) < len(events):
             classes.append("threshold_removed_some")
+    if len(Xtrain) != n:
+        classes.append("fitted_on_other_length")
+    if n >= 150:
+        classes.append("long_series")
     if msl == 1:
         classes.append("msl=1")
     if ties:
